@@ -5,7 +5,7 @@
 ID="$1"; F="$2"; EXPR="$3"; shift 3
 D=$(mktemp -d /tmp/mutwt.XXXXXX)
 git -C /repo worktree add -q --detach "$D" HEAD || exit 2
-cp /repo/abacusnbody/version.py "$D/abacusnbody/version.py" 2>/dev/null
+cp /repo/abacusnbody/version.py "$D/abacusnbody/version.py" 2>/dev/null; cp -r /repo/abacusutils.egg-info "$D/" 2>/dev/null
 sed -i "$EXPR" "$D/$F"
 if git -C "$D" diff --quiet -- "$F"; then echo "MUTATION DID NOT APPLY"; git -C /repo worktree remove --force "$D"; exit 3; fi
 git -C "$D" diff | grep '^[-+]' | grep -v '^+++\|^---'
